@@ -310,6 +310,9 @@ def ops_for(layout: dict, model: RegsModel) -> list[tuple]:
                 "0b1", "1_0", "zz"]
         if uid in model.groups:
             vals += [0x0102030405060708 & ((1 << w) - 1), (1 << 64) | 1 if w > 64 else 3]
+            # top byte 0x0B: written without prefix (hex-string groups) the text starts with "0B" - a binary literal to a
+            # number parser; once followed by 0/1 digits only, once by other digits
+            vals += [int("0B" + "10" * (w // 8 - 1), 16), int("0B" + "A5" * (w // 8 - 1), 16)]
         for v in vals:
             ops.append(("rset", uid, v, False))
         for v in (1, (1 << w) - 1, 1 << w, 0x0102030405060708 & ((1 << w) - 1)):
